@@ -102,13 +102,24 @@ CAtoms == <<Require(NF("GC", "C1")), Require(NF("GC", "C2")), Require(NF("GC", "
 ThinFor(np) == IF np = 0 THEN 1 ELSE IF np = 1 THEN ThinA10 ELSE IF np = 2 THEN ThinA1 ELSE ThinA13
 A1Chunks == UNION {UNION {{<<"A1", si, ti, np, ai>> : np \in 0..3, ai \in DOMAIN PAtoms}
                           : ti \in DOMAIN TargetKinds(Shapes[si])} : si \in DOMAIN Shapes}
+\* The part of A1 that is never thinned (in any tier): no proof; one proof x every requirement about ITS resource, in
+\* every frame of every shape x target kind; two proofs of one resource in one frame (where "some single proof" and
+\* "the sum" differ) x every amount-of requirement about that resource.  Only the bulk is thinned: requirements about
+\* the other resource, pairs spread over frames / resources, triples.
+PtRes(code) == IF ((code - 1) % NPT) + 1 <= 2 THEN "F" ELSE "N"
+AtomRes(ai) == IF ai = 1 \/ (ai >= 6 /\ ai <= 9) THEN "F" ELSE "N"
+Boundary(ms, ai) ==
+  \/ Len(ms) = 0
+  \/ Len(ms) = 1 /\ PtRes(ms[1]) = AtomRes(ai)
+  \/ Len(ms) = 2 /\ (ms[1] - 1) \div NPT = (ms[2] - 1) \div NPT /\ PtRes(ms[1]) = PtRes(ms[2])
+       /\ AtomRes(ai) = PtRes(ms[1]) /\ ai >= 6
 A1Cases(k) ==
   LET shape == Shapes[k[2]]
       tk == TargetKinds(shape)[k[3]]
       thin == ThinFor(k[4])
-  IN IF thin = 0 THEN {}
-     ELSE {Mk("A1", Place(shape, ms), {}, FALSE, tk, Atom(PAtoms[k[5]]))
-             : ms \in {m \in MS(k[4], 1, NPT * Len(shape)) : Keep(SumCodes(m, 1) + 3 * k[5] + k[2] + 11 * k[3], thin)}}
+  IN {Mk("A1", Place(shape, ms), {}, FALSE, tk, Atom(PAtoms[k[5]]))
+        : ms \in {m \in MS(k[4], 1, NPT * Len(shape)) :
+                    Boundary(m, k[5]) \/ Keep(SumCodes(m, 1) + 3 * k[5] + k[2] + 11 * k[3], thin)}}
 A23Chunks == UNION {{<<fam, si, ti, 0, 0>> : fam \in {"A2", "A3", "A4"}, ti \in DOMAIN TargetKinds(Shapes[si])} : si \in DOMAIN Shapes}
 A2Cases(k) ==
   LET shape == Shapes[k[2]]
@@ -143,7 +154,8 @@ RECURSIVE BHash(_, _)
 BHash(ls, i) == IF i > Len(ls) THEN 0 ELSE (IF ls[i].id = "1" THEN 1 ELSE IF ls[i].id = "2" THEN 2 ELSE 3) * (3 * i + 1) + BHash(ls, i + 1)
 OpNum(op) == CASE op = "require" -> 1 [] op = "amount" -> 2 [] op = "count" -> 3 [] op = "allof" -> 4 [] op = "anyof" -> 5
 B1Chunks == {<<"B1", vi, a, 0, 0>> : vi \in DOMAIN BVariants, a \in AssignNums}
-B1Cases(k) == {MkB("B1", k[2], AssignOf(k[3]), Atom(b)) : b \in {x \in Basics1 : Keep(BHash(x.leaves, 1) + x.n * 5 + OpNum(x.op) + k[3] + k[2], ThinB1)}}
+\* never thinned: every basic requirement over lists of length <= 2 (empty, singleton, pair; count-of 0 .. 4)
+B1Cases(k) == {MkB("B1", k[2], AssignOf(k[3]), Atom(b)) : b \in {x \in Basics1 : Len(x.leaves) <= 2 \/ Keep(BHash(x.leaves, 1) + x.n * 5 + OpNum(x.op) + k[3] + k[2], ThinB1)}}
 
 \* composite trees by number of requirement leaves
 T1 == {B(Require(L3[i])) : i \in 1..3}
@@ -172,7 +184,9 @@ RECURSIVE THash(_)
 THash(t) == IF t.op = "b" THEN 1 ELSE (IF t.op = "any" THEN 3 ELSE 5) + 7 * SumSeq([i \in DOMAIN t.kids |-> (i + 1) * THash(t.kids[i])], 1)
 Trees == {t \in (T2 \ T1) \cup T3new : Canon(t)}
 B2Chunks == {<<"B2", a, 0, 0, 0>> : a \in AssignNums}
-B2Cases(k) == {MkB("B2", (THash(t) % 3) + 1, AssignOf(k[2]), Protected(t)) : t \in {x \in Trees : Keep(THash(x) + k[2], ThinB2)}}
+\* never thinned: the trees of depth 2 (any-of / all-of over 0..3 requirement leaves), with all three target kinds
+B2Cases(k) == {MkB("B2", vi, AssignOf(k[2]), Protected(t)) : t \in {x \in Trees : x \in T2}, vi \in DOMAIN BVariants}
+                \cup {MkB("B2", (THash(t) % 3) + 1, AssignOf(k[2]), Protected(t)) : t \in {x \in Trees : x \notin T2 /\ Keep(THash(x) + k[2], ThinB2)}}
 
 ---------------------------------------------------------------------------
 \* D: role resolution
@@ -186,11 +200,12 @@ DCfgs == {Cfg(o, r1, r2) : o \in {DenyAll, RO}, r1 \in {NoRule, Some(AllowAll), 
 DMethods == <<"m_r1", "m_r2", "m_r1r2", "m_r2r1", "m_owner", "m_self", "m_r1self", "m_none", "m_pub", "m_pkg">>
 DProofs(a) == (IF 1 \in a THEN <<PT[3]>> ELSE <<>>) \o (IF 2 \in a THEN <<PT[4]>> ELSE <<>>) \o (IF 3 \in a THEN <<PT[2]>> ELSE <<>>)
 DChunks == {<<"D", si, mi, pos, 0>> : si \in DOMAIN DShapes, mi \in DOMAIN DMethods, pos \in {1, 2}}
+\* never thinned: every role configuration x method x caller shape with no proof and with all proofs in the last frame
 DCases(k) ==
   LET shape == DShapes[k[2]]
       at == IF k[4] = 1 THEN Len(shape) ELSE 1
   IN UNION {{WithExp(Raw("D", [shape EXCEPT ![at].proofs = DProofs(AssignOf(a))], {}, FALSE, "method", "T", DMethods[k[3]], DenyAll, cfg, "-"))
-               : cfg \in {x \in DCfgs : Keep(a + k[2] + k[4] + 2 * k[3] + (IF x.r1.some THEN 3 ELSE 0)
+               : cfg \in {x \in DCfgs : (a \in {0, 7} /\ k[4] = 1) \/ Keep(a + k[2] + k[4] + 2 * k[3] + (IF x.r1.some THEN 3 ELSE 0)
                                           + (IF x.r2.some THEN 5 ELSE 0) + (IF x.owner.kind = "deny" THEN 7 ELSE 0)
                                           + (IF x.r1.rule.kind = "allow" THEN 1 ELSE IF x.r1.rule.kind = "deny" THEN 2 ELSE 4), ThinD)}}
             : a \in AssignNums}
